@@ -558,10 +558,10 @@ pub fn c12(tier: Tier) -> i32 {
     let run = Run::new("C12", "fault_enumeration", tier);
     let budget = Duration::from_secs(std::env::var("VERIF_BUDGET_S").ok().and_then(|v| v.parse().ok()).unwrap_or(if tier == Tier::Quick { 50 } else { 600 }));
     let deadline = Instant::now() + budget;
-    let bound = if tier == Tier::Quick { 1 } else { 2 };
-    let early = if tier == Tier::Quick { 0 } else { 1 };
-    let ks: Vec<u8> = if tier == Tier::Quick { vec![0, 1] } else { vec![0, 1, 2] };
-    let agains: Vec<u64> = if tier == Tier::Quick { vec![0, 1] } else { vec![0, 1, 2, 3] };
+    let bound = if tier == Tier::Quick { 1 } else { 3 };
+    let early = if tier == Tier::Quick { 0 } else { 2 };
+    let ks: Vec<u8> = if tier == Tier::Quick { vec![0, 1] } else { vec![0, 1, 2, 3] };
+    let agains: Vec<u64> = if tier == Tier::Quick { vec![0, 1] } else { vec![0, 1, 2, 3, 4, 5] };
     let mut cases: Vec<OutageCase> = Vec::new();
     for (name, cfg, prefix, faulty) in prefixes() {
         // how many RPCs / block-source calls does the faulty step make when nothing fails?
@@ -618,6 +618,7 @@ pub fn c12(tier: Tier) -> i32 {
     let schedules = std::sync::atomic::AtomicU64::new(0);
     let timeouts = std::sync::atomic::AtomicU64::new(0);
     let recovered_by_carrier = std::sync::atomic::AtomicU64::new(0);
+    let capped_placements = std::sync::atomic::AtomicU64::new(0);
     let outcomes: StdMutex<BTreeSet<String>> = StdMutex::new(BTreeSet::new());
     let (res, timed_out) = crate::explore::par_map(&cases, Some(deadline), |_, c| {
         let mut rc = c.clone();
@@ -639,8 +640,14 @@ pub fn c12(tier: Tier) -> i32 {
             for (s, d) in judge(c, &r, &reference) {
                 viols.push((s, d, r.points.iter().map(|p| p.chosen).collect()));
             }
-            if r.blocked.is_none() && r.panics.is_empty() && n < 400 {
-                stack.extend(children(prefix.len(), &r.points, bound));
+            let cap = if bound <= 1 { 400 } else { 4000 };
+            if r.blocked.is_none() && r.panics.is_empty() {
+                if n < cap {
+                    stack.extend(children(prefix.len(), &r.points, bound));
+                } else {
+                    capped_placements.fetch_add(1, std::sync::atomic::Ordering::Relaxed);
+                    stack.clear();
+                }
             }
         }
         schedules.fetch_add(n, std::sync::atomic::Ordering::Relaxed);
@@ -688,7 +695,9 @@ pub fn c12(tier: Tier) -> i32 {
     run.set("early_timeouts_allowed_per_execution", json!(early));
     run.set("fault_placements", json!(total_cases));
     run.set("fault_placements_explored", json!(done));
-    run.set("exhaustive", json!(!timed_out));
+    let capped = capped_placements.load(std::sync::atomic::Ordering::Relaxed);
+    run.set("placements_whose_schedule_enumeration_was_cut_at_the_per_placement_cap", json!(capped));
+    run.set("exhaustive", json!(!timed_out && capped == 0));
     run.set("preemption_bound", json!(bound));
     run.set("rule", json!("prefix histories x the step that talks to the node (block being processed: breach, two breaches, reorg re-submission, stale rebroadcast, multi-block catch-up; triggered add_appointment, accepted and refused penalty) x outage starting at every RPC of that step x k failed polls (request path) / failed reachability checks of the waiting carrier (block path) during the outage x {nothing, empty block, block with another dispute} mined meanwhile; plus, for every RPC, a connection that drops twice (again at the s-th successful call after the recovery, s = 0 being the retried call itself); plus every single failed block-source call of the polls. Each placement runs under the controlled scheduler (all schedules of request / chain-monitor / rest-of-the-world threads within the pre-emption bound; timers elapse at quiescence); 'blocked forever' = no enabled thread. evaluations = executions, distinct_nontrivial = distinct (blocked?, final state, API replies during outage) outcomes (at least the number of placements explored)"));
     run.assume("timers elapse only at quiescence; the chain monitor's polling timer elapses before the carrier's reachability-check timer except for the allowed early time-outs; on the block path the outage ends after a number of failed calls, on the request path when the scripted environment says so");
